@@ -1,6 +1,18 @@
-"""Vacuity guard for the theories: try hard to derive False from every axiom set a contract uses
-(several seeds, long timeout).  `unsat` = inconsistent axioms = checker defect."""
-import sys, time, itertools
+"""Vacuity guard for the theories: try hard to derive False from every axiom set a contract uses.
+`unsat` = inconsistent axioms = checker defect (exit 3).
+
+Three attacks per theory combination:
+  1. z3, several seeds, axioms only (as before);
+  2. z3 with *seed terms*: every declared function symbol applied to a small pool of constants / containers (with duplicates) up to depth 2,
+     so that E-matching has ground material for every trigger (finds 'total function symbol' traps such as dict_del on a sequence with duplicates);
+  3. cvc5 (enumerative instantiation) on the same two problems.
+usage: consistency.py <seconds> [PID]"""
+import itertools
+import os
+import subprocess
+import sys
+import tempfile
+import time
 sys.path.insert(0, '/verif')
 from pyvc.load import load_all; load_all()
 from pyvc import logic as L, registry as R
@@ -10,7 +22,60 @@ PID = sys.argv[2] if len(sys.argv) > 2 else None
 combos = sorted({tuple(sorted(set(c.theories) | {"core"})) for c in R.CONTRACTS.values() if PID is None or PID in c.props})
 if PID is None:
     combos.append(tuple(L.all_theories()))
+
+
+def seed_batches(per_fn=150, batch=250):
+    """Ground seed terms, in batches small enough for E-matching to finish: for every declared function symbol f with a V result, f applied to a small
+    pool of constants / containers (incl. a sequence with a duplicate), and the core observers (len, nth, has, get, is_dictlike) on that term."""
+    V, I, B, S = L.V, L.I, L.B, L.S
+    c = [z3.Const("seedc%d" % k, V) for k in range(3)]
+    pool = {V: c[:2] + [L.mk_tuple([c[0], c[0]]), L.mk_tuple([c[0], c[1]]), L.NONE, L.EMPTY_SEQ, L.EMPTY_DICT, L.box_str(z3.StringVal("a"))],
+            I: [z3.IntVal(0), z3.IntVal(1)], B: [z3.BoolVal(True)], S: [z3.StringVal("a")]}
+    seen = {V: z3.Function("seed_seen_v", V, B), I: z3.Function("seed_seen_i", I, B), B: z3.Function("seed_seen_b", B, B), S: z3.Function("seed_seen_s", S, B)}
+    groups = []
+    for f in list(L._FUNCS.values()):
+        doms = [f.domain(k) for k in range(f.arity())]
+        if any(d not in pool for d in doms) or f.range() not in seen:
+            continue
+        n = 0
+        for args in itertools.product(*[pool[d] for d in doms]):
+            t = f(*args)
+            g = [seen[t.sort()](t)]
+            if t.sort() == V:
+                g += [seen[V](L.nth(t, z3.IntVal(0))), seen[V](L.nth(t, z3.IntVal(1))), seen[B](L.has(t, c[0])), seen[I](L.len_(t)), seen[V](L.get(t, c[0])), seen[B](L.is_dictlike(t))]
+            groups.append(g)
+            n += 1
+            if n >= per_fn:
+                break
+    out, cur = [], []
+    for g in groups:
+        cur += g
+        if len(cur) >= batch:
+            out.append(cur)
+            cur = []
+    if cur:
+        out.append(cur)
+    return out
+
+
+def run_cvc5(assertions, seconds):
+    s = z3.Solver()
+    for a in assertions:
+        s.add(a)
+    fd, path = tempfile.mkstemp(suffix=".smt2", prefix="cons_")
+    try:
+        with os.fdopen(fd, "w") as f:
+            f.write(s.to_smt2())
+        p = subprocess.run(["/usr/bin/cvc5", "--tlimit=%d" % (seconds * 1000), "--strings-exp", "--lang=smt2", path], capture_output=True, text=True)
+        out = (p.stdout or "").strip().splitlines()
+        return out[0] if out else "unknown"
+    finally:
+        os.remove(path)
+
+
 bad = 0
+BATCHES = seed_batches()
+print("seed batches:", len(BATCHES), "terms:", sum(len(b_) for b_ in BATCHES), flush=True)
 for combo in combos:
     axs = L.axioms_of(set(combo)) + L.distinctness_axioms()
     for seed in ((0, 1, 2) if PID is None else (0, 1)):
@@ -18,9 +83,34 @@ for combo in combos:
         for k, (n, a) in enumerate(axs):
             s.assert_and_track(a, z3.Bool("ax_%d" % k))
         t = time.time(); r = s.check()
-        print(combo, "seed", seed, r, round(time.time() - t, 1), flush=True)
+        print(combo, "plain z3 seed", seed, r, round(time.time() - t, 1), flush=True)
         if r == z3.unsat:
             bad += 1
             print("  UNSAT CORE:", [axs[int(str(c)[3:])][0] for c in s.unsat_core()], flush=True)
             break
+    t = time.time()
+    r = run_cvc5([a for _, a in axs], max(10, T // 2))
+    print(combo, "plain cvc5", r, round(time.time() - t, 1), flush=True)
+    if r == "unsat":
+        bad += 1
+        print("  UNSAT CORE: (cvc5 reports the axiom set unsatisfiable)", flush=True)
+    # seeded: one solver with the axioms, push / pop per batch
+    s = z3.Solver(); s.set("timeout", 3000); s.set(unsat_core=True)
+    for k, (n, a) in enumerate(axs):
+        s.assert_and_track(a, z3.Bool("ax_%d" % k))
+    t = time.time()
+    hits = 0
+    for bi, bt in enumerate(BATCHES):
+        s.push()
+        for e in bt:
+            s.add(e)
+        r = s.check()
+        if r == z3.unsat:
+            hits += 1
+            bad += 1
+            print(combo, "seeded batch", bi, "UNSAT CORE:", [axs[int(str(c)[3:])][0] for c in s.unsat_core() if str(c).startswith("ax_")], flush=True)
+        s.pop()
+        if hits >= 3:
+            break
+    print(combo, "seeded z3: %d batches, %d unsat" % (len(BATCHES), hits), round(time.time() - t, 1), flush=True)
 sys.exit(3 if bad else 0)
